@@ -1,9 +1,11 @@
+\* the ideal aggregator (owner imports take part in the supersede logic, KF24 repaired): every
+\* invariant holds with nothing excused
 SPECIFICATION Spec
 CONSTANTS
-  MaxContrib = 2
-  Focus <- FocusAll
+  MaxContrib = 3
+  Focus <- FocusShape
   DEV_NestedSupertype = FALSE
   DEV_OwnerImportTwice = FALSE
-  DEV_OwnerNaming = TRUE
+  DEV_OwnerNaming = FALSE
 INVARIANTS FailsExactly MatchesContract MatchesByKey OneImportPerKey UniqueNames Canonical Satisfies Idempotent
 CHECK_DEADLOCK FALSE
